@@ -44,6 +44,14 @@ type c16Obs struct {
 	gen             map[string]string
 	cpuMs           int64
 	straceLog       string
+	judgedFine      bool // already judged in the worker; bulky fields dropped
+}
+
+func keepInjected(log string) string {
+	if strings.Contains(log, "(INJECTED)") {
+		return "(INJECTED)"
+	}
+	return ""
 }
 
 var c16DiagRe = regexp.MustCompile(`(?m)^[^\n]*\S: +\S`)
@@ -702,6 +710,20 @@ func runC16(r *core.Run, tier string) {
 			}
 		}
 		os.RemoveAll(d)
+		// keep memory bounded: an execution that is judged fine keeps only what the evidence needs
+		if cl, _ := c16Judge(e, obs[i]); cl == "" {
+			o := obs[i]
+			o.stdout, o.stderr, o.straceLog = tail(o.stdout, 300), tail(o.stderr, 300), keepInjected(o.straceLog)
+			names := map[string]string{}
+			for n := range o.gen {
+				names[n] = ""
+			}
+			o.gen = names
+			o.judgedFine = true
+			if len(e.files["x.fo"]) > 1<<14 {
+				e.files = map[string]string{"x.fo": tail(e.files["x.fo"], 200)}
+			}
+		}
 	})
 	classes := map[string]int64{}
 	scaleSeen := map[string]string{}
@@ -728,7 +750,10 @@ func runC16(r *core.Run, tier string) {
 				notInjected = append(notInjected, e.id)
 			}
 		}
-		class, what := c16Judge(e, o)
+		class, what := "", ""
+		if !o.judgedFine {
+			class, what = c16Judge(e, o)
+		}
 		if e.scale {
 			oc := fmt.Sprintf("exit=%d cpu_ms=%d", o.exit, o.cpuMs)
 			if class != "" {
